@@ -71,7 +71,7 @@ func (sim) Explain(prop string, st map[string]int64) string {
 			"probe.rejection-of-recorded-tx", "probe.resend-with-unmined", "probe.resend-chain", "fault.backend-answer.transport", "fault.backend-answer.reject-fee",
 			"fault.backend-answer.reject-generic", "fault.backend-answer.reject-conflict", "fault.backend-answer.notify-received-fails", "fault.backend-answer.notify-received-2nd-fails", "probe.resend-rejected", "probe.rejection-with-recorded-child"}
 	case "C15":
-		probes = []string{"probe.reorg-depth>1", "probe.reorg-with-wallet-tx", "probe.restart-tip-not-on-chain", "probe.stale-disconnect", "probe.reorg-equal-height", "probe.sync-after-backend-failure", "probe.node-moved-while-stopped"}
+		probes = []string{"probe.reorg-back-to-known-blocks", "probe.reorg-depth>1", "probe.reorg-with-wallet-tx", "probe.restart-tip-not-on-chain", "probe.stale-disconnect", "probe.reorg-equal-height", "probe.sync-after-backend-failure", "probe.node-moved-while-stopped"}
 	}
 	s := "probes: "
 	for _, k := range probes {
@@ -164,7 +164,9 @@ func genC15(r *core.Rand, p *core.Plan) {
 	p.Ops = append(p.Ops, core.Op{K: "newaddr", A: []int64{int64(r.Intn(4)), 0, 0}})
 	maxDepth := r.Range(1, 8)
 	for i := 0; i < n; i++ {
-		switch r.Weighted([]int{20, 25, 18, 12, 14, 5, 4, 4, 6, 4, 3}) {
+		switch r.Weighted([]int{20, 25, 18, 12, 14, 5, 4, 4, 6, 4, 3, 8}) {
+		case 11:
+			p.Ops = append(p.Ops, core.Op{K: "switchback", A: []int64{int64(r.Intn(4)), int64(r.Uint64() >> 1)}})
 		case 0:
 			p.Ops = append(p.Ops, core.Op{K: "fund", A: []int64{int64(r.Intn(6)), int64(r.Range(1, 50)) * 1e6}})
 		case 1:
@@ -199,6 +201,9 @@ func genC15(r *core.Rand, p *core.Plan) {
 				} else {
 					d := r.Range(1, maxDepth)
 					p.Ops = append(p.Ops, core.Op{K: "reorg", A: []int64{int64(d), int64(d + r.Range(0, 2)), int64(r.Range(0, 100)), int64(r.Uint64() >> 1)}})
+					if r.Chance(1, 3) {
+						p.Ops = append(p.Ops, core.Op{K: "switchback", A: []int64{int64(r.Intn(4)), int64(r.Uint64() >> 1)}})
+					}
 				}
 			}
 			p.Ops = append(p.Ops, core.Op{K: "start"})
@@ -520,6 +525,26 @@ func (rs *runState) exec(task, step int, op core.Op) {
 			env.Count("probe.node-moved-while-stopped")
 		}
 		env.Logf("%d reorg depth=%d disc=%d conn=%d tip=%d", step, depth, len(disc), len(conn), x.node.Tip().Height)
+	case "switchback":
+		// the best chain returns to blocks it had before (same hashes)
+		d, c := x.node.SwitchBack(int(op.Arg(0)))
+		if c == 0 {
+			return
+		}
+		// a bitcoind-style client ignores a branch lower than its best block:
+		// make the restored branch at least as high as what it replaced
+		r := core.NewRand(uint64(op.Arg(1)) + 41)
+		for c < d {
+			x.node.Mine(simchain.MineOpts{Txs: x.pickMempool(r, 100), CoinbaseValue: 50e8, Dt: 10 * time.Minute})
+			c++
+		}
+		env.Count("op.switchback")
+		env.Count("probe.reorg-back-to-known-blocks")
+		env.Eff()
+		if !x.running && x.w != nil {
+			env.Count("probe.node-moved-while-stopped")
+		}
+		env.Logf("%d switchback disc=%d conn=%d tip=%d", step, d, c, x.node.Tip().Height)
 	case "deliver":
 		if !x.running {
 			return
